@@ -27,6 +27,7 @@ type Rig struct {
 	script  *caseScript
 	// WithSpec: also run the real OCI spec generator on the replies (C03)
 	WithSpec bool
+	Names    []string
 }
 
 const NPlugins = 6
@@ -35,13 +36,14 @@ const NPlugins = 6
 func PluginName(i int) string { return fmt.Sprintf("%02d-p%d", 10*(i+1), i) }
 
 type caseScript struct {
-	responses map[string]*PluginRsp // by plugin name
-	views     map[string]interface{}
+	responses map[int]*PluginRsp // by plugin instance
+	views     []interface{}
 	order     []string
 }
 
 type scripted struct {
 	rig  *Rig
+	inst int
 	idx  string
 	base string
 	stub stub.Stub
@@ -58,8 +60,8 @@ func (p *scripted) Synchronize(context.Context, []*api.PodSandbox, []*api.Contai
 func (p *scripted) CreateContainer(_ context.Context, _ *api.PodSandbox, c *api.Container) (*api.ContainerAdjustment, []*api.ContainerUpdate, error) {
 	s := p.rig.script
 	s.order = append(s.order, p.name())
-	s.views[p.name()] = FromContainer(c)
-	r := s.responses[p.name()]
+	s.views = append(s.views, FromContainer(c))
+	r := s.responses[p.inst]
 	if r == nil {
 		return nil, nil, nil
 	}
@@ -69,8 +71,8 @@ func (p *scripted) CreateContainer(_ context.Context, _ *api.PodSandbox, c *api.
 func (p *scripted) UpdateContainer(_ context.Context, _ *api.PodSandbox, _ *api.Container, res *api.LinuxResources) ([]*api.ContainerUpdate, error) {
 	s := p.rig.script
 	s.order = append(s.order, p.name())
-	s.views[p.name()] = FromResources(res)
-	r := s.responses[p.name()]
+	s.views = append(s.views, FromResources(res))
+	r := s.responses[p.inst]
 	if r == nil {
 		return nil, nil
 	}
@@ -80,20 +82,34 @@ func (p *scripted) UpdateContainer(_ context.Context, _ *api.PodSandbox, _ *api.
 func (p *scripted) StopContainer(_ context.Context, _ *api.PodSandbox, c *api.Container) ([]*api.ContainerUpdate, error) {
 	s := p.rig.script
 	s.order = append(s.order, p.name())
-	s.views[p.name()] = nil
-	r := s.responses[p.name()]
+	s.views = append(s.views, nil)
+	r := s.responses[p.inst]
 	if r == nil {
 		return nil, nil
 	}
 	return ToUpdates(r.Updates), nil
 }
 
-func NewRig(scratch string, n int) (*Rig, error) {
+// TwinNames is the plugin set of the "twins" rig: two plugin instances registered under the
+// same index and name (NRI does not require names to be unique - think of a plugin being
+// restarted or upgraded in place) and one ordinary plugin.
+var TwinNames = []string{"10-p0", "10-p0", "20-p1"}
+
+// StdNames are the six distinctly named plugins of the standard rig.
+func StdNames() []string {
+	var n []string
+	for i := 0; i < NPlugins; i++ {
+		n = append(n, PluginName(i))
+	}
+	return n
+}
+
+func NewRig(scratch string, n int, names []string) (*Rig, error) {
 	dir, err := os.MkdirTemp(scratch, fmt.Sprintf("r%d-", n))
 	if err != nil {
 		return nil, err
 	}
-	g := &Rig{dir: dir}
+	g := &Rig{dir: dir, Names: names}
 	syncFn := func(ctx context.Context, cb nri.SyncCB) error {
 		_, err := cb(ctx, nil, nil)
 		return err
@@ -110,8 +126,15 @@ func NewRig(scratch string, n int) (*Rig, error) {
 		return nil, err
 	}
 	// register in scrambled order: the runtime must order plugins by index, not by arrival
-	for _, i := range []int{3, 0, 5, 1, 4, 2} {
-		p := &scripted{rig: g, idx: fmt.Sprintf("%02d", 10*(i+1)), base: fmt.Sprintf("p%d", i), sync: make(chan struct{})}
+	order := []int{3, 0, 5, 1, 4, 2}
+	if len(names) != NPlugins {
+		order = nil
+		for i := len(names) - 1; i >= 0; i-- {
+			order = append(order, i)
+		}
+	}
+	for _, i := range order {
+		p := &scripted{rig: g, inst: i, idx: names[i][:2], base: names[i][3:], sync: make(chan struct{})}
 		p.stub, err = stub.New(p, stub.WithPluginName(p.base), stub.WithPluginIdx(p.idx),
 			stub.WithSocketPath(filepath.Join(dir, "nri.sock")),
 			stub.WithOnClose(func() {})) // the default onClose handler exits the process
@@ -132,14 +155,14 @@ func NewRig(scratch string, n int) (*Rig, error) {
 	// no-op request that reaches every plugin confirms it
 	deadline := time.Now().Add(20 * time.Second)
 	for {
-		g.script = &caseScript{responses: map[string]*PluginRsp{}, views: map[string]interface{}{}}
+		g.script = &caseScript{responses: map[int]*PluginRsp{}}
 		_, err := g.rt.StopContainer(context.Background(), &api.StopContainerRequest{
 			Pod: &api.PodSandbox{Id: "pod0"}, Container: &api.Container{Id: "warmup"}})
-		if err == nil && len(g.script.order) == NPlugins {
+		if err == nil && len(g.script.order) == len(names) {
 			break
 		}
 		if time.Now().After(deadline) {
-			return nil, fmt.Errorf("plugins not active: %d/%d (%v)", len(g.script.order), NPlugins, err)
+			return nil, fmt.Errorf("plugins not active: %d/%d (%v)", len(g.script.order), len(names), err)
 		}
 		time.Sleep(5 * time.Millisecond)
 	}
@@ -158,6 +181,7 @@ func (g *Rig) Close() {
 
 type PluginRsp struct {
 	Name    string    `json:"name"`
+	Inst    int       `json:"inst"` // position in the rig's plugin list (names may repeat)
 	Adjust  *JAdjust  `json:"adjust"`
 	Updates []JUpdate `json:"updates"`
 }
@@ -214,9 +238,9 @@ func classify(err error) JErr {
 func (g *Rig) RunCase(in *CaseIn) (*CaseObs, error) {
 	g.mu.Lock()
 	defer g.mu.Unlock()
-	s := &caseScript{responses: map[string]*PluginRsp{}, views: map[string]interface{}{}}
+	s := &caseScript{responses: map[int]*PluginRsp{}}
 	for i := range in.Plugins {
-		s.responses[in.Plugins[i].Name] = &in.Plugins[i]
+		s.responses[in.Plugins[i].Inst] = &in.Plugins[i]
 	}
 	g.script = s
 	obs := &CaseObs{Updates: []*JUpdate{}}
@@ -262,9 +286,6 @@ func (g *Rig) RunCase(in *CaseIn) (*CaseObs, error) {
 		return nil, fmt.Errorf("unknown case kind %q", in.Kind)
 	}
 	obs.Invoked = append([]string{}, s.order...)
-	obs.Views = []interface{}{}
-	for _, n := range s.order {
-		obs.Views = append(obs.Views, s.views[n])
-	}
+	obs.Views = append([]interface{}{}, s.views...)
 	return obs, nil
 }
